@@ -524,9 +524,44 @@ def _eval_cfg(acc, sysd, cfg):
     acc.n["tensors"] += 1
     if cfg["via"] == "os" and cfg.get("sec") and not T.as_operators:
         _os_secular_twin(acc, sysd, cfg, T, ham, variant)
+    # initialize() recalculates the object only for classes which define it (or the
+    # _implementation it calls) themselves; TDRedfieldFoerster inherits the time-independent
+    # one, and with a coupling cut-off the calculation is tied to the caller's protocol
+    # (cut-off subtracted, inside eigenbasis_of) which a bare initialize() does not repeat
+    own = set(type(T).__dict__) & {"initialize", "_implementation"}
+    if cfg["via"] == "direct" and "proj" not in cfg and own and not cfg.get("ccut") \
+            and not T.as_operators:
+        _recompute(acc, sysd, cfg, T, variant)
     if T.as_operators:
         return _flow_operators(acc, sysd, cfg, T, ham, variant)
     return _flow_tensor(acc, T, ham, variant)
+
+
+def _recompute(acc, sysd, cfg, T, variant):
+    """HISTORY: the generator calculated a second time on the SAME object (initialize() is the
+    public way to (re)calculate a tensor created with initialize=False or after the inputs
+    changed).  The recomputed generator must satisfy the identities and, the inputs being the
+    same, equal the first one."""
+    R0 = numpy.array(T.data, copy=True)
+    try:
+        T2, _h = _build(sysd, cfg)
+        with isolation.quiet():
+            T2.initialize()
+        R2 = numpy.array(T2.data, copy=True)
+    except isolation.HarnessError:
+        raise
+    except Exception as e:
+        acc.add("recomputed-raises/%s/%s" % (variant, type(e).__name__),
+                "second initialize() on the same object raised %s: %s"
+                % (type(e).__name__, str(e)[:100]), None)
+        return
+    _ids(acc, R2, variant, "site", prefix="recomputed-")
+    sc = TI.scale(R0)
+    if R2.shape != R0.shape or float(numpy.max(numpy.abs(R2 - R0))) > RTOL * sc:
+        dev = float(numpy.max(numpy.abs(R2 - R0))) if R2.shape == R0.shape else float("inf")
+        acc.add("recomputed-differs/%s" % variant,
+                "the generator calculated a second time on the same object differs from the first "
+                "calculation by %.3g (scale %.3g)" % (dev, sc), None)
 
 
 def _lindblad_cfgs(proj):
